@@ -37,7 +37,8 @@ REQUIRED_THEOREMS = [
     "Acn.C10.unplugs_commute", "Acn.C10.eventsStage_perm", "Acn.C10.run_perm_sessions_partial",
     "Acn.C10.run_equivariant_stations_partial", "Acn.C10.body_shift", "Acn.C10.run_shift_partial",
     "Acn.C10.updateSchedules_shift", "Acn.C10.run_equivariant_stations", "Acn.C10.scripted_schedEquivariant",
-    "Acn.C10.sort_perm_of_distinct_keys",
+    "Acn.C10.sort_perm_of_distinct_keys", "Acn.C10.run_shift", "Acn.C10.run_shift_anchored",
+    "Acn.C10.run_shift_from", "Acn.C10.scripted_schedShiftInvariant", "Acn.C10.run_perm_sessions_core", "Acn.C10.anchor_of_event",
 ]
 BUDGET = {"quick": 200, "thorough": 1600, "search": 1200}
 TRUSTED = ["CPython heapq / sorted (stable) / dict insertion order; numpy `@`, `sum`, `abs` (a changed summation "
